@@ -474,7 +474,8 @@ class FuncTypes:
                             counts[x.id] = counts.get(x.id, 0) + 2
                 elif isinstance(n, ast.arg):
                     counts[n.arg] = counts.get(n.arg, 0) + 2
-            self._maliases = {k: v for k, v in val.items() if counts.get(k) == 1 and isinstance(v, ast.Attribute)}
+            self._maliases = {k: v for k, v in val.items() if counts.get(k) == 1 and
+                              (isinstance(v, ast.Attribute) or (isinstance(v, ast.IfExp) and isinstance(v.body, ast.Attribute) and isinstance(v.orelse, ast.Attribute)))}
         return self._maliases
 
     def resolve_call(self, call):
@@ -500,9 +501,14 @@ class FuncTypes:
             # local alias of a bound method:  `get = self.workflow.get_task_list` ... `get(...)`
             al = self.method_aliases().get(f.id)
             if al is not None:
-                syn = ast.Call(func=al, args=call.args, keywords=call.keywords)
-                ast.copy_location(syn, call)
-                return self.resolve_call(syn)
+                out, res = [], True
+                for a in ([al.body, al.orelse] if isinstance(al, ast.IfExp) else [al]):   # `f = self.a if c else self.b`: either
+                    syn = ast.Call(func=a, args=call.args, keywords=call.keywords)
+                    ast.copy_location(syn, call)
+                    cs, r = self.resolve_call(syn)
+                    out.extend(c for c in cs if c not in out)
+                    res = res and r
+                return out, res
             return [], True
         if isinstance(f, ast.Attribute):
             if isinstance(f.value, ast.Call) and isinstance(f.value.func, ast.Name) and f.value.func.id == "super" and self.func.cls:
